@@ -22,8 +22,8 @@ import (
 
 func init() {
 	Register(&Rule{ID: "R-ERR-21", Props: []string{"C19"}, Floor: 3,
-		Doc:      "for every comma-ok type assertion `x, _ := y.(T)` in hand-written csvq code whose ok result is not used, the value x — the ZERO value of T whenever y holds something else — and everything read out of it (fields, through local variables, phis, and as the argument of a csvq helper two levels deep) does not reach an unchecked type assertion, a method call on an interface, a call of a func value or a pointer dereference, unless a nil test / type test of that very value dominates the use",
-		Controls: []string{"CtlOkDroppedThenFieldAsserted"},
+		Doc:      "for every comma-ok type assertion `x, _ := y.(T)` in hand-written csvq code whose ok result is not used, the value x — the ZERO value of T whenever y holds something else — and everything read out of it (fields, through local variables, phis, and as the argument or receiver of a csvq helper two levels deep, unless the call itself is only reached under such a test of the value handed over) does not reach an unchecked type assertion, a method call on an interface, a call of a func value or a pointer dereference, unless a nil test / type test of that very value dominates the use",
+		Controls: []string{"CtlOkDroppedThenFieldAsserted", "CtlOkDroppedHandedToHelperUntested"},
 		Run:      ruleErr21})
 	Register(&Rule{ID: "R-ERR-22", Props: []string{"C19"}, Floor: 35,
 		Doc:      "belief analysis over the fields of lib/parser syntax-tree structs: a field of interface or pointer type that is compared with nil anywhere in hand-written csvq code is an OPTIONAL part of the tree; every unchecked type assertion on, and every interface method call through, a read of such a field is dominated by a nil test or a successful type test of the same field of the same struct value (no store in between) — otherwise a statement without that part ends in 'interface conversion: interface is nil' (Go stack trace / internal Fatal Error)",
@@ -307,6 +307,13 @@ func e21Sinks(c *Ctx, v ssa.Value, depth int, seen map[ssa.Value]bool, path stri
 			}
 			callee := cc.StaticCallee()
 			if callee == nil || len(callee.Blocks) == 0 || callee.Pkg == nil || !strings.HasPrefix(callee.Pkg.Pkg.Path(), core.ModPath) {
+				continue
+			}
+			// the call is only reached under a nil test / type test of this very
+			// value: what the helper receives here is not the zero value (the
+			// receiver of a method is Args[0] for a static callee, so a method of
+			// the asserted type is covered as well).
+			if nilable && e21Guarded(v, x) {
 				continue
 			}
 			for i, a := range cc.Args {
